@@ -355,7 +355,7 @@ func init() {
 		floors:      map[string]int{"C16.multivariant_checked": 5000, "C16.renditions_checked": 1000, "C16.bandwidth_exact_checked": 500, "feature.paramchange": 10},
 	})
 	regMux(&muxProp{
-		id: "C18", oracle: oracle.C18, quick: 240, thorough: 3000,
+		id: "C18", oracle: oracle.C18, quick: 240, thorough: 1500,
 		gen: func(seed int64, idx int, tier string) (*media.Case, muxrun.Options) {
 			if idx%3 == 0 {
 				o := media.GenOpts{Profile: "size", MaxWrites: 1500}
@@ -363,11 +363,13 @@ func init() {
 			}
 			o := media.GenOpts{Profile: "long", MinSegments: 20, MaxSegments: 80, MaxWrites: 6000}
 			if tier == "thorough" {
-				o.MinSegments, o.MaxSegments, o.MaxWrites = 100, 1500, 150000
+				// (bounded by memory: a history keeps every observed playlist; 1500 rotations x 16
+				// workers exhausted the 62 GB of this machine and the thrashing produced watchdog hangs)
+				o.MinSegments, o.MaxSegments, o.MaxWrites = 100, 400, 40000
 			}
 			return media.Gen(seed, idx, o), muxrun.Options{Light: true, RoundEvery: 4}
 		},
-		rule:        "two thirds long histories (20-80 rotations quick, 100-1500 thorough), one third small SegmentMaxSize with payloads straddling the limit; non-trivial = >= 3 published segments",
+		rule:        "two thirds long histories (20-80 rotations quick, 100-400 thorough), one third small SegmentMaxSize with payloads straddling the limit; non-trivial = >= 3 published segments",
 		assumptions: stdAssumptions(),
 		floors:      map[string]int{"C18.path_counts_checked": 2000, "C18.dir_listings_checked": 500, "C18.expired_probed": 500, "C18.size_limit_hit": 10, "C18.segments_near_limit": 5},
 	})
